@@ -275,6 +275,31 @@ def compare(chk, stream, cases, exe, bins, budget=6):
     return bad
 
 
+def fuel_margin(chk, exe, cases):
+    """measured sufficiency of the model's fuel (C03_parse_total is monitored, not proved): least fuel with which the model
+    answers, as a fraction of the fuel parse_file uses; more than half is reported"""
+    cases = [c for c in cases if c[1]]
+    lines = ["M " + vlib.hx(t) for (_, t) in cases]
+    res = run_isolating([exe], lines)
+    worst, worst_case, worst_ratio = 0.0, None, 0.0
+    for (tag, text), r in zip(cases, res):
+        f = r.split(" ")
+        if len(f) != 4 or f[0] != "MIN":
+            chk.violation("fuel measurement failed on a text (%s): %s" % (tag, r[:80]), {"kind": "ext_asmparser", "stream": "fuel", "tag": tag, "text": text}, found=False)
+            continue
+        need, have, chars = int(f[1]), int(f[2]), int(f[3])
+        frac = need / float(have)
+        if frac > worst:
+            worst, worst_case, worst_ratio = frac, (tag, text[:120]), need / float(chars + 16)
+    chk.count("asmparser_fuel", len(cases))
+    chk.cov["streams"]["asmparser_fuel"].update({"worst_fraction_of_fuel_used": round(worst, 4), "worst_fuel_per_char": round(worst_ratio, 2),
+                                                  "fuel_per_char_available": 64, "worst_case": worst_case})
+    if worst > 0.5:
+        chk.violation("AsmParser model needs more than half of its fuel (%.2f) on %r" % (worst, worst_case),
+                      {"kind": "ext_asmparser", "stream": "fuel", "text": worst_case[1]}, found=False)
+    return worst
+
+
 def build():
     vlib.extraction("ExAsmParser")
     exe = vlib.ocaml_build("astdump_driver", ["asmparser_model"])
@@ -287,14 +312,16 @@ def run_streams(chk, quick=True):
     rng = chk.rng.fork("ext_asmparser")
     files = corpus_files(vlib.REPO)
     bad = compare(chk, "asmparser_corpus", [(n, t) for (n, t) in files], exe, bins)
-    nm = 60000 if quick else 400000
+    nm = 40000 if quick else 400000
     muts = gen_mutants(rng.fork("mut"), files, nm)
     kinds = {}
     for k, _, _ in muts:
         kinds[k] = kinds.get(k, 0) + 1
     bad += compare(chk, "asmparser_mutants", [("%s of %s" % (k, n), t) for (k, n, t) in muts], exe, bins)
     chk.cov["streams"]["asmparser_mutants"].update({"kind_" + k: v for k, v in kinds.items()})
-    bad += compare(chk, "asmparser_directed", directed_cases(rng.fork("dir")), exe, bins, budget=12)
+    directed = directed_cases(rng.fork("dir"))
+    bad += compare(chk, "asmparser_directed", directed, exe, bins, budget=12)
+    fuel_margin(chk, exe, [(n, t) for (n, t) in files] + directed + [(k + " of " + n, t) for (k, n, t) in muts[:4000]])
     progs = gen_programs(rng.fork("gen"), 4800 if quick else 32000)
     kinds = {}
     for k, _ in progs:
